@@ -159,6 +159,11 @@ def do_call(dep, c, cfg):
     if kind == 'AddMeasurement':
       tr.add_measurement(vz.Measurement({'m': float(c.get('v', 0))}, steps=c.get('step', 1)))
       return ('ok',)
+    if kind == 'LongCurve':
+      # a long learning curve: large stored trial (transport size limits matter for what embeds it)
+      for i in range(c.get('n', 260)):
+        tr.add_measurement(vz.Measurement({'m': float(i % 7)}, steps=i + 1))
+      return ('ok',)
     if kind == 'Stop':
       tr.stop()
       return ('ok',)
@@ -199,7 +204,7 @@ class C08(runner.Check):
   chunk = 10
   probes = ['probe.error-path', 'probe.algorithm-call', 'probe.resource-not-found', 'probe.finished-study-suggest',
             'probe.complete-twice', 'probe.out-of-space-add', 'probe.metadata-on-missing-trial',
-            'probe.call-after-delete-study']
+            'probe.call-after-delete-study', 'probe.long-learning-curve']
 
   def setup_tier(self, tier):
     if tier != 'thorough':
@@ -219,6 +224,13 @@ class C08(runner.Check):
              'AddTrial', 'AddTrial', 'Request', 'SetState', 'GetState', 'StudyMD', 'GetConfigMD', 'TrialMD', 'TrialMD',
              'AddMeasurement', 'AddMeasurement', 'Stop', 'CheckES', 'DeleteTrial', 'Load', 'LoadMissing',
              'DeleteStudy', 'Create'])
+    if rng.random() < 0.04:
+      # rare: one trial with a very long learning curve, then error paths on it
+      ops += [['Suggest', {'n': 1, 'worker': 0}], ['LongCurve', {'trial': {'pref': 'active', 'i': 0}, 'n': 260}],
+              ['Complete', {'trial': {'pref': 'active', 'i': 0}, 'ckind': 'final', 'v': 1}],
+              ['Complete', {'trial': {'pref': 'completed', 'i': 0}, 'ckind': 'final', 'v': 2}],
+              ['AddMeasurement', {'trial': {'pref': 'completed', 'i': 0}, 'v': 1, 'step': 1}],
+              ['CheckES', {'trial': {'pref': 'completed', 'i': 0}}]]
     while len(ops) < n:
       k = rng.choice(kinds)
       a = {}
@@ -318,6 +330,8 @@ class C08(runner.Check):
         res.bump('probe.out-of-space-add')
       if kind == 'TrialMD' and st and isinstance(st['trials'], dict) and c['trial'] not in st['trials']:
         res.bump('probe.metadata-on-missing-trial')
+      if kind == 'LongCurve' and out[0] == 'ok':
+        res.bump('probe.long-learning-curve')
       if kind == 'DeleteStudy' and out[0] == 'ok':
         deleted = True
       if kind == 'Create':
